@@ -884,36 +884,41 @@ bool Builder::StartEdge(Edge* edge, string* err) {
 
   TimeStamp build_start = config_.dry_run ? 0 : -1;
 
-  // Create directories necessary for outputs and remember the current
-  // filesystem mtime to record later
-  // XXX: this will block; do we care?
-  for (vector<Node*>::iterator o = edge->outputs_.begin();
-       o != edge->outputs_.end(); ++o) {
-    if (!disk_interface_->MakeDirs((*o)->path()))
-      return false;
-    if (build_start == -1) {
-      disk_interface_->WriteFile(lock_file_path_, "", false);
-      build_start = disk_interface_->Stat(lock_file_path_, err);
-      if (build_start == -1)
-        build_start = 0;
+  // A dry run must leave the disk alone: no directories, no response file.
+  if (!config_.dry_run) {
+    // Create directories necessary for outputs and remember the current
+    // filesystem mtime to record later
+    // XXX: this will block; do we care?
+    for (vector<Node*>::iterator o = edge->outputs_.begin();
+         o != edge->outputs_.end(); ++o) {
+      if (!disk_interface_->MakeDirs((*o)->path()))
+        return false;
+      if (build_start == -1) {
+        disk_interface_->WriteFile(lock_file_path_, "", false);
+        build_start = disk_interface_->Stat(lock_file_path_, err);
+        if (build_start == -1)
+          build_start = 0;
+      }
     }
   }
 
   edge->command_start_time_ = build_start;
 
-  // Create depfile directory if needed.
-  // XXX: this may also block; do we care?
-  std::string depfile = edge->GetUnescapedDepfile();
-  if (!depfile.empty() && !disk_interface_->MakeDirs(depfile))
-    return false;
-
-  // Create response file, if needed
-  // XXX: this may also block; do we care?
-  string rspfile = edge->GetUnescapedRspfile();
-  if (!rspfile.empty()) {
-    string content = edge->GetBinding("rspfile_content");
-    if (!disk_interface_->WriteFile(rspfile, content, true))
+  if (!config_.dry_run) {
+    // Create depfile directory if needed.
+    // XXX: this may also block; do we care?
+    std::string depfile = edge->GetUnescapedDepfile();
+    if (!depfile.empty() && !disk_interface_->MakeDirs(depfile))
       return false;
+
+    // Create response file, if needed
+    // XXX: this may also block; do we care?
+    string rspfile = edge->GetUnescapedRspfile();
+    if (!rspfile.empty()) {
+      string content = edge->GetBinding("rspfile_content");
+      if (!disk_interface_->WriteFile(rspfile, content, true))
+        return false;
+    }
   }
 
   // start command computing and run it
@@ -1008,7 +1013,7 @@ bool Builder::FinishCommand(BuildResult::CommandCompleted& result,
 
   // Delete any left over response file.
   string rspfile = edge->GetUnescapedRspfile();
-  if (!rspfile.empty() && !g_keep_rsp)
+  if (!rspfile.empty() && !g_keep_rsp && !config_.dry_run)
     disk_interface_->RemoveFile(rspfile);
 
   if (scan_.build_log()) {
